@@ -426,7 +426,8 @@ register("C05", streams=[Q("all", apis=ALL_APIS, src=None, share=3, untraced=0.4
          extra=[families.MutateFamily("cascade", 400, 15000, "get(store_default) with constant and callable defaults: what is returned is what is stored, the callable is asked once")],
          rule="all four read functions on the same (path, source) space, source = document or k-th match of another path; default in {none, constant incl. falsy and {}, callable}; must_match in {True, False}")
 register("C07", generated=["Shared"], streams=[Q("all", apis=["find_matches", "find"], src=None, nexts="partial", untraced=0.5, share=4),
-                         Q("filter", pred="below", apis=["find_matches", "find"], src=None, nexts="partial", untraced=0.5, share=1)],
+                         Q("filter", pred="below", apis=["find_matches", "find"], src=None, nexts="partial", untraced=0.5, share=1),
+                         Q("filter", pred="lazyhas", apis=["find_matches", "find"], src=None, nexts="partial", untraced=0.5, share=1)],
          observables=["calls", "results_exc", "segments"], oracles=[oracles.interleave_oracle, oracles.thread_oracle, oracles.reiter_oracle, oracles.long_iteration_oracle, oracles.fatigue_oracle],
          rule="iterators advanced k times (k below, at, beyond the number of results; extra next() calls after exhaustion); per-call segments of results and user-predicate calls compared with the machine model; interleavings of 2-5 iterators sharing path objects; real threads as support")
 register("C11", streams=[Q("nopar", apis=["find_matches"], src=None)],
@@ -451,7 +452,8 @@ register("C17", streams=[Q("all", apis=["find_matches", "find", "get_match"], sr
          observables=["results_exc", "leaf_events", "stamps", "tie:trace"], oracles=[oracles.untraced_oracle, oracles.long_scan_oracle, oracles.event_chain_oracle, oracles.deep_oracle],
          extra=[families.MutateFamily("set", 500, 15000, "writers given a trace callable on every other call: outcome and object graph as without")],
          rule="full trace event stream (last_match, vertex index, next_match, predicate_match) compared with the machine model; unstamped events compared with the specification stream; traced vs untraced runs compared on the python side")
-register("C20", generated=["Budget"], streams=[Q("all", apis=["find_matches"], src=None, nexts="drain")],
+register("C20", generated=["Budget"], streams=[Q("all", apis=["find_matches"], src=None, nexts="drain", share=5),
+                                               Q("filter", pred="lazyhas", apis=["find_matches"], src=None, nexts="drain", share=1)],
          observables=["attempts_bound", "results_exc", "tie:attempts"], oracles=[oracles.work_bound_oracle, oracles.rescan_oracle, oracles.live_edit_oracle, oracles.interleave_oracle, oracles.cyclic_oracle, oracles.cyclic_optional_oracle, oracles.deep_oracle],
          extra=[families.GraphFamily("cyclic", 8, 150, "per-next() trace-event count and signal on self-referential structures under the real budget")],
          rule="number of trace events of a drained search compared with the specification's attempt count and with 2 x examinations; cyclic dict/list structures with the real budget as support")
